@@ -3,7 +3,7 @@ from __future__ import annotations
 
 import z3
 
-from .sorts import B, I, SeqV, V
+from .sorts import B, I, V
 
 _fresh_counter = [0]
 
@@ -18,14 +18,14 @@ def fresh_const(prefix: str, sort):
 
 
 def heap_sort(name: str):
-    if name == "$seq":
-        return z3.ArraySort(I, SeqV)
+    if name in ("$len", "$klen"):
+        return z3.ArraySort(I, I)
+    if name in ("$el", "$kel"):
+        return z3.ArraySort(I, z3.ArraySort(I, V))
     if name == "$dmap":
         return z3.ArraySort(I, z3.ArraySort(V, V))
     if name == "$dhas":
         return z3.ArraySort(I, z3.ArraySort(V, B))
-    if name == "$dkeys":
-        return z3.ArraySort(I, SeqV)
     return z3.ArraySort(I, V)
 
 
@@ -42,6 +42,37 @@ class Val:
 
     def __repr__(self):
         return f"Val({self.t}, ty={self.ty})"
+
+
+class SeqView:
+    """a sequence as (length term, element array Int->V); the array is only meaningful on [0, n)"""
+
+    __slots__ = ("n", "arr", "elem")
+
+    def __init__(self, n, arr, elem=None):
+        self.n = n
+        self.arr = arr
+        self.elem = elem
+
+    def at(self, i):
+        return z3.Select(self.arr, i)
+
+
+def arr_lit(terms):
+    a = z3.K(I, V.none)
+    for k, t in enumerate(terms):
+        a = z3.Store(a, z3.IntVal(k), t)
+    return a
+
+
+def arr_slice(view: "SeqView", start):
+    i = z3.Int("sl!i")
+    return z3.Lambda([i], z3.Select(view.arr, start + i))
+
+
+def arr_concat(a: "SeqView", b: "SeqView"):
+    i = z3.Int("cc!i")
+    return z3.Lambda([i], z3.If(i < a.n, z3.Select(a.arr, i), z3.Select(b.arr, i - a.n)))
 
 
 class State:
